@@ -686,6 +686,13 @@ impl Core {
         IO: 'static + AsyncRead + AsyncWrite + Unpin + Send + PeerAddr,
     {
         match protocol {
+            // the codecs read their own section of the listen protocol settings
+            tls_demultiplexer::Protocol::Http1 if core_settings.listen_protocols.http1.is_none() => {
+                Err(io::Error::new(ErrorKind::Other, "HTTP/1.1 is not enabled"))
+            }
+            tls_demultiplexer::Protocol::Http2 if core_settings.listen_protocols.http2.is_none() => {
+                Err(io::Error::new(ErrorKind::Other, "HTTP/2 is not enabled"))
+            }
             tls_demultiplexer::Protocol::Http1 => {
                 Ok(Box::new(Http1Codec::new(core_settings, io, log_id)))
             }
